@@ -15,6 +15,14 @@ struct CondenseGuard {     // the condense switch is documented process-wide sta
     ~CondenseGuard() { SimTK::Xml::Document::setXmlCondenseWhiteSpace(true); }
 };
 
+// adjacent Text nodes of an in-memory tree are one text node in any XML serialization: merge them before comparing
+inline void mergeTexts(XNode& n) {
+    std::vector<XNode> k;
+    for (auto& c : n.kids) { if (c.type == 1 && !k.empty() && k.back().type == 1) k.back().name += c.name; else k.push_back(c); }
+    n.kids.swap(k);
+    for (auto& c : n.kids) mergeTexts(c);
+}
+
 // comparison of an expected tree with a re-read one
 struct XmlCmp {
     bool cond;            // compare text modulo white-space condensing (condense mode, or pretty printing in preserve mode)
@@ -101,10 +109,19 @@ inline bool checkXmlBytes(const std::string& bytes, pbt::Ctx& ctx) {
     GuardedCStr guarded(s, ctx.known(kOverread));
     try { d1.readFromString(guarded.c_str()); } catch (const std::exception&) { return false; }
     XDoc t1 = snapshot(d1);
+    // "<?...?>" anywhere but at the very beginning: stray declarations become hidden nodes inside elements (the Xml API
+    // has no node type for them) and split the surrounding text; not judged
+    { size_t first = 0; while (first < s.size() && isWs((unsigned char)s[first])) ++first;
+      size_t q = s.find("<?"); if (q != std::string::npos && (q != first || s.find("<?", q + 2) != std::string::npos)) { ctx.label("raw:xml:stray-declaration(not judged)"); return false; } }
     // Unknown nodes ("tags the parser does not understand, passed through uninterpreted") are outside the round-trip
     // contract: their raw contents can be anything, including text that re-parses as something else.
     { bool unk = false; for (auto& n : t1.top) if (hasUnknown(n)) unk = true; if (unk) { ctx.label("raw:xml:has-unknown-node(not judged)"); return false; } }
     String s1; d1.writeToString(s1, true);
+    {   // the declaration is judged only when its attributes are legal XML VersionNum / EncName / yes|no strings
+        // ([A-Za-z0-9_.:-]*): the declaration printer escapes nothing, so anything else is garbage in, garbage out
+        std::string decl = std::string(s1).substr(0, std::string(s1).find("?>")); int q = 0, eq = 0; bool odd = false;
+        for (unsigned char c : decl) { if (c == '"') ++q; else if (c == '=') ++eq; else if (!(std::isalnum(c) || c == '_' || c == '.' || c == ':' || c == '-' || c == ' ' || c == '<' || c == '?')) odd = true; }
+        if (odd || q != 2 * eq) { ctx.label("raw:xml:odd-declaration(not judged)"); return false; } }
     { bool hex = false; for (auto& n : t1.top) if (hasHexRef(n)) hex = true;
       if (hex && ctx.known(kHexRef)) { ctx.label("excluded:xml-hex-charref"); try { Xml::Document dd; dd.readFromString(s1); } catch (const std::exception&) {} return true; } }
     Xml::Document d2;
@@ -113,16 +130,18 @@ inline bool checkXmlBytes(const std::string& bytes, pbt::Ctx& ctx) {
         if (hex && ctx.known(kHexRef)) { ctx.label("excluded:xml-hex-charref"); return true; }     // "&#x" passed through unescaped can also make the text unparsable
         ctx.fail("document written by writeToString cannot be read back: " + show(s1) + " : " + std::string(e.what()).substr(0, 200)); return true; }
     XDoc t2 = snapshot(d2);
+    for (auto& n : t1.top) mergeTexts(n);
+    for (auto& n : t2.top) mergeTexts(n);
     XmlCmp cmp{condMode, &ctx};
-    if (!ctx.check(t1.top.size() == t2.top.size(), "top-level node count changed by write/read: " + std::to_string(t1.top.size()) + " vs " + std::to_string(t2.top.size()) + " for " + show(s1))) return true;
+    if (!PBT_CK(ctx, t1.top.size() == t2.top.size(), "top-level node count changed by write/read: " + std::to_string(t1.top.size()) + " vs " + std::to_string(t2.top.size()) + " for " + show(s1))) return true;
     for (size_t i = 0; i < t1.top.size(); ++i) { std::string df = cmp.diff(t1.top[i], t2.top[i], ""); if (!df.empty()) { ctx.fail("write/read changed the document: " + df + "; written text " + show(s1)); return true; } }
     if (cmp.wsKnown) ctx.label("excluded:xml-whitespace-only-text");
     if (cmp.hexKnown) ctx.label("excluded:xml-hex-charref");
-    if (!ctx.check(t1.version == t2.version && t1.encoding == t2.encoding && t1.standalone == t2.standalone, "declaration changed by write/read: " + show(s1))) return true;
+    if (!PBT_CK(ctx, t1.version == t2.version && t1.encoding == t2.encoding && t1.standalone == t2.standalone, "declaration changed by write/read: " + show(s1))) return true;
     String s2; d2.writeToString(s2, true);
     Xml::Document d3; try { d3.readFromString(s2); } catch (const std::exception& e) { ctx.fail("second-generation text cannot be read back: " + show(s2)); return true; }
     String s3; d3.writeToString(s3, true);
-    if (!(cmp.wsKnown || cmp.hexKnown)) ctx.check(std::string(s2) == std::string(s3), "write(read(x)) is not a textual fixed point from the second write on: " + show(s2) + " vs " + show(s3));
+    if (!(cmp.wsKnown || cmp.hexKnown)) PBT_CK(ctx, std::string(s2) == std::string(s3), "write(read(x)) is not a textual fixed point from the second write on: " + show(s2) + " vs " + show(s3));
     return true;
 }
 
@@ -249,7 +268,7 @@ inline void modeXml(const pbt::Tape& t, pbt::Ctx& ctx) {
     // the in-memory document is what was generated
     { XDoc t0 = snapshot(doc); XmlCmp c0{false, &ctx};
       std::vector<XNode> want = topBefore; want.push_back(root); want.insert(want.end(), topAfter.begin(), topAfter.end());
-      if (!ctx.check(t0.top.size() == want.size(), "in-memory document has " + std::to_string(t0.top.size()) + " top-level nodes, built " + std::to_string(want.size()))) return;
+      if (!PBT_CK(ctx, t0.top.size() == want.size(), "in-memory document has " + std::to_string(t0.top.size()) + " top-level nodes, built " + std::to_string(want.size()))) return;
       for (size_t i = 0; i < want.size(); ++i) if (!(want[i] == t0.top[i])) { ctx.fail("document built through the API differs from what was put in: " + diffNodes(want[i], t0.top[i], false, "")); return; } }
 
     String s1; doc.writeToString(s1, compact);
@@ -264,15 +283,15 @@ inline void modeXml(const pbt::Tape& t, pbt::Ctx& ctx) {
     XDoc t2 = snapshot(d2);
     XmlCmp cmp{condMode || !compact, &ctx};
     std::vector<XNode> want = topBefore; want.push_back(root); want.insert(want.end(), topAfter.begin(), topAfter.end());
-    if (!ctx.check(t2.top.size() == want.size(), "top-level node count after write/read: " + std::to_string(t2.top.size()) + ", written " + std::to_string(want.size()))) return;
+    if (!PBT_CK(ctx, t2.top.size() == want.size(), "top-level node count after write/read: " + std::to_string(t2.top.size()) + ", written " + std::to_string(want.size()))) return;
     for (size_t i = 0; i < want.size(); ++i) { std::string df = cmp.diff(want[i], t2.top[i], ""); if (!df.empty()) { ctx.fail("XML write/read changed the document: " + df); return; } }
     if (cmp.wsKnown) ctx.label("excluded:xml-whitespace-only-text");
     if (cmp.hexKnown) ctx.label("excluded:xml-hex-charref");
-    if (!ctx.check(d2.getXmlIsStandalone() == !standaloneNo && std::string(d2.getXmlVersion()) == "1.0" && std::string(d2.getXmlEncoding()) == "UTF-8" && std::string(d2.getRootTag()) == rootTag, "declaration / root tag changed by write/read")) return;
+    if (!PBT_CK(ctx, d2.getXmlIsStandalone() == !standaloneNo && std::string(d2.getXmlVersion()) == "1.0" && std::string(d2.getXmlEncoding()) == "UTF-8" && std::string(d2.getRootTag()) == rootTag, "declaration / root tag changed by write/read")) return;
 
     // ---- serialized values come back bit for bit
     for (auto& vc : values) {
-        Xml::Element e; if (!ctx.check(findElement(d2.getRootElement(), vc.tag, e), "serialized value element <" + vc.tag + "> lost")) return;
+        Xml::Element e; if (!PBT_CK(ctx, findElement(d2.getRootElement(), vc.tag, e), "serialized value element <" + vc.tag + "> lost")) return;
         try {
             bool ok = true; std::string val = e.getValue();
             switch (vc.kind) {
@@ -284,7 +303,7 @@ inline void modeXml(const pbt::Tape& t, pbt::Ctx& ctx) {
                 case 5: { Vec<2, float> x(7.f); fromXmlElement(x, e, vc.tag); ok = sameBits(x[0], vc.v2f[0]) && sameBits(x[1], vc.v2f[1]); break; }
                 default: { double x = e.getValueAs<double>(); ok = sameBits(x, vc.d); break; }
             }
-            if (!ctx.check(ok, "value serialized into <" + vc.tag + "> (kind " + std::to_string(vc.kind) + ") came back different after the XML round trip: text " + show(val))) return;
+            if (!PBT_CK(ctx, ok, "value serialized into <" + vc.tag + "> (kind " + std::to_string(vc.kind) + ") came back different after the XML round trip: text " + show(val))) return;
         } catch (const std::exception& ex) { ctx.fail("value serialized into <" + vc.tag + "> cannot be read back: " + std::string(ex.what()).substr(0, 300)); return; }
     }
 
@@ -293,7 +312,7 @@ inline void modeXml(const pbt::Tape& t, pbt::Ctx& ctx) {
         String s2; d2.writeToString(s2, compact);
         Xml::Document d3; try { d3.readFromString(s2); } catch (const std::exception& e) { ctx.fail("second-generation text cannot be read back"); return; }
         String s3; d3.writeToString(s3, compact);
-        if (!(cmp.hexKnown || cmp.wsKnown)) ctx.check(std::string(s2) == std::string(s3), "write(read(x)) is not a textual fixed point from the second write on:\n" + show(s2) + "\nvs\n" + show(s3));
+        if (!(cmp.hexKnown || cmp.wsKnown)) PBT_CK(ctx, std::string(s2) == std::string(s3), "write(read(x)) is not a textual fixed point from the second write on:\n" + show(s2) + "\nvs\n" + show(s3));
     }
 }
 
@@ -310,7 +329,7 @@ inline void addXmlDirected(pbt::Config& c) {
             int st = 0; waitpid(c, &st, 0); if (WIFSIGNALED(st)) ++crashed;
             ctx.desc << "readFromString(" << show(d) << ") with the terminator as last readable byte: " << (WIFSIGNALED(st) ? "SIGSEGV (read past the terminator)" : "ok") << "\n";
         }
-        ctx.check(crashed == 0, "Xml::Document::readFromString reads past the terminating NUL of an input that ends inside a quoted attribute value / CDATA section (e.g. \"<r k=\\\"x\"): " + std::to_string(crashed) + " of 3 such inputs crash when the byte after the terminator is unreadable");
+        PBT_CK(ctx, crashed == 0, "Xml::Document::readFromString reads past the terminating NUL of an input that ends inside a quoted attribute value / CDATA section (e.g. \"<r k=\\\"x\"): " + std::to_string(crashed) + " of 3 such inputs crash when the byte after the terminator is unreadable");
     }});
 #endif
     c.directed.push_back({"xml-whitespace-only-text", kWsOnly, [](pbt::Ctx& ctx) {
@@ -319,14 +338,14 @@ inline void addXmlDirected(pbt::Config& c) {
         String s; d.writeToString(s, true); Xml::Document d2; d2.readFromString(s);
         std::string v = d2.getRootElement().getRequiredElement("a").getValue();
         ctx.desc << "preserve mode: <a> </a> written as " << s << " read back value " << show(v) << "\n";
-        ctx.check(v == " ", "with white-space condensing switched off, element text \" \" is written as <a> </a> but read back as " + show(v));
+        PBT_CK(ctx, v == " ", "with white-space condensing switched off, element text \" \" is written as <a> </a> but read back as " + show(v));
     }});
     c.directed.push_back({"xml-hex-charref", kHexRef, [](pbt::Ctx& ctx) {
         Xml::Document d; d.setRootTag("r"); d.getRootElement().appendNode(Xml::Element("a", "&#x41;")); d.getRootElement().setAttributeValue("k", "&#x42;");
         String s; d.writeToString(s, true); Xml::Document d2; d2.readFromString(s);
         std::string v = d2.getRootElement().getRequiredElement("a").getValue(), k = d2.getRootElement().getRequiredAttributeValue("k");
         ctx.desc << "text \"&#x41;\" written as " << s << " read back " << show(v) << " / attribute " << show(k) << "\n";
-        ctx.check(v == "&#x41;" && k == "&#x42;", "text/attribute value \"&#x41;\" is written unescaped (the '&' of \"&#x\" is passed through) and read back as " + show(v) + " / " + show(k));
+        PBT_CK(ctx, v == "&#x41;" && k == "&#x42;", "text/attribute value \"&#x41;\" is written unescaped (the '&' of \"&#x\" is passed through) and read back as " + show(v) + " / " + show(k));
     }});
 }
 
